@@ -243,7 +243,20 @@ def run(ctx):
                     view[0] = (5, 5)
                 else:
                     view[0] = view[0] + 1
+
+        def wgrow(c, k=k):
+            # a structural change the original accepts: one more sample than the capacity holds
+            t = getattr(c, "_timing", None)
+            if t is not None and t.sample_interval_mode == SampleIntervalMode.IRREGULAR:
+                return          # (needs matching timestamps; the write mutation above covers these)
+            extra = c.capacity - c.sample_count + 1
+            if k == "digital":
+                c.append(np.zeros((extra, c.signal_count), c.dtype))
+            else:
+                c.append(np.zeros(extra, c.dtype))
         check_value(ctx, "waveform:" + kind, o, wobs, wmut)
+        if rng.random() < 0.5:
+            check_value(ctx, "waveform-grow:" + kind, o, wobs, wgrow, must_mutate=True)
         # the same observable state with different slack compares equal
         if kind in ("analog", "spectrum") and o.sample_count:
             data = (o.raw_data if kind == "analog" else o.data).copy()
